@@ -1,4 +1,1433 @@
-//! c17 check (under construction)
+//! C17 — tunnel reassembly emits only intact packets, at most once, in any frame order.
+//!
+//! Explicit-state exploration of frame-delivery histories through the REAL `Defragmenter`
+//! (`anapaya_edge_tun::fragmenting`), frames of honest packets produced by the REAL `Fragmenter`.
+//!
+//! * Payload bytes are provenance tags: byte at absolute position `p` of every frame whose stream
+//!   offset identifies packet `pid` is `tag(pid, p)` (never 0, different for different pids at the
+//!   same position). A fresh `Defragmenter` has zeroed buffers, so any emitted byte that was not
+//!   received in a frame of the emitted packet at that position shows up as `0` or as the tag of
+//!   another packet.
+//! * Events: deliver frame `f` of the alphabet (honest frames of 4 packets + hostile frames built
+//!   by field mutation). Histories: ALL sequences with repetition up to the depth bound.
+//! * A new state is produced by replaying its history on a fresh `Defragmenter`; every
+//!   (state, frame) transition is executed on the real object and judged by oracles that do not
+//!   use the mirror.
+//! * De-duplication key: a harness mirror of the documented slot state (stream offset, received
+//!   index set, window, final size, expected frames, last offset, idle, buffer provenance
+//!   intervals) + the state of the history-dependent honest-sender monitor. Soundness of merging:
+//!   the key contains every field that `recv` reads (`next_frame_offset` and the histogram clock
+//!   feed metrics only), so two histories with equal keys leave the real object in states that
+//!   answer every future frame identically PROVIDED the mirror is faithful. Faithfulness is
+//!   checked on every executed transition (result kind, error label, emitted stream offset and
+//!   every emitted byte — which exposes the buffer abstraction); after the first divergence a
+//!   history and all its extensions are never merged (keyed by the history itself). In addition
+//!   every merge at shallow depth is audited on the real object (all one-frame extensions of the
+//!   merged history and of the representative must give identical results).
+use std::{
+    alloc::{GlobalAlloc, Layout, System},
+    cell::Cell,
+    collections::{BTreeMap, HashMap, HashSet},
+};
+
+use anapaya_edge_tun::fragmenting::{
+    DefragmentInsertError, Defragmenter, Fragmenter, MAX_MTU, MAX_PACKET_SIZE, MIN_MTU,
+    metrics::DefragmentMetrics,
+};
+use rayon::prelude::*;
+use serde_json::{Value, json};
+
+// ---------------------------------------------------------------------------------------------
+// counting allocator (per-thread live bytes; the measured sections are single-threaded)
+// ---------------------------------------------------------------------------------------------
+struct Counting;
+thread_local! {
+    static LIVE: Cell<i64> = const { Cell::new(0) };
+}
+unsafe impl GlobalAlloc for Counting {
+    unsafe fn alloc(&self, l: Layout) -> *mut u8 {
+        let p = unsafe { System.alloc(l) };
+        if !p.is_null() {
+            let _ = LIVE.try_with(|c| c.set(c.get() + l.size() as i64));
+        }
+        p
+    }
+    unsafe fn alloc_zeroed(&self, l: Layout) -> *mut u8 {
+        let p = unsafe { System.alloc_zeroed(l) };
+        if !p.is_null() {
+            let _ = LIVE.try_with(|c| c.set(c.get() + l.size() as i64));
+        }
+        p
+    }
+    unsafe fn dealloc(&self, p: *mut u8, l: Layout) {
+        unsafe { System.dealloc(p, l) };
+        let _ = LIVE.try_with(|c| c.set(c.get() - l.size() as i64));
+    }
+    unsafe fn realloc(&self, p: *mut u8, l: Layout, new: usize) -> *mut u8 {
+        let q = unsafe { System.realloc(p, l, new) };
+        if !q.is_null() {
+            let _ = LIVE.try_with(|c| c.set(c.get() + new as i64 - l.size() as i64));
+        }
+        q
+    }
+}
+#[global_allocator]
+static ALLOC: Counting = Counting;
+fn live() -> i64 {
+    LIVE.with(|c| c.get())
+}
+
+thread_local! {
+    /// One metrics object per thread; every Defragmenter gets a clone (cheap Arc clones) instead
+    /// of building a fresh prometheus registry per history.
+    static METRICS: DefragmentMetrics = Defragmenter::new_unobserved(1).metrics().clone();
+}
+
+// ---------------------------------------------------------------------------------------------
+// provenance tags, frames
+// ---------------------------------------------------------------------------------------------
+const HDR: usize = 16;
+const LAST: u16 = 0x8000;
+
+/// Byte at absolute packet position `p` of packet `pid`: never 0; different pids differ at every
+/// position; a shift by a multiple of a frame window (>= 256, not a multiple of 251) changes it.
+fn tag(pid: u8, p: usize) -> u8 {
+    1 + ((p + 37 * pid as usize) % 251) as u8
+}
+
+/// `tag(pid, 0..=65536)` for pid 0..8, for slice comparisons.
+fn tag_table(pid: u8) -> &'static [u8] {
+    static T: std::sync::OnceLock<Vec<Vec<u8>>> = std::sync::OnceLock::new();
+    &T.get_or_init(|| (0..8u8).map(|k| (0..=65536usize).map(|p| tag(k, p)).collect()).collect())[pid as usize]
+}
+
+#[derive(Clone, Copy, Debug, PartialEq, Eq)]
+struct Hdr {
+    so: u64,
+    off: u16,
+    flags: u16,
+}
+impl Hdr {
+    fn last(&self) -> bool {
+        self.flags & LAST != 0
+    }
+}
+
+#[derive(Clone)]
+struct Frame {
+    name: String,
+    /// (honest packet index, frame index) when produced by the real Fragmenter
+    honest: Option<(usize, usize)>,
+    raw: Vec<u8>,
+    /// None for frames shorter than the header
+    hdr: Option<Hdr>,
+    /// payload length
+    len: usize,
+    pid: u8,
+}
+
+fn mk_frame(name: &str, so: u64, off: u16, flags: u16, len: usize, pid: u8) -> Frame {
+    let mut raw = vec![0u8; HDR + len];
+    raw[0..8].copy_from_slice(&so.to_be_bytes());
+    raw[8..10].copy_from_slice(&off.to_be_bytes());
+    raw[10..12].copy_from_slice(&flags.to_be_bytes());
+    for i in 0..len {
+        raw[HDR + i] = tag(pid, off as usize + i);
+    }
+    Frame { name: name.to_string(), honest: None, raw, hdr: Some(Hdr { so, off, flags }), len, pid }
+}
+fn mk_raw(name: &str, raw: Vec<u8>) -> Frame {
+    Frame { name: name.to_string(), honest: None, raw, hdr: None, len: 0, pid: 255 }
+}
+fn parse_hdr(raw: &[u8]) -> Option<Hdr> {
+    if raw.len() < HDR {
+        return None;
+    }
+    Some(Hdr {
+        so: u64::from_be_bytes(raw[0..8].try_into().unwrap()),
+        off: u16::from_be_bytes(raw[8..10].try_into().unwrap()),
+        flags: u16::from_be_bytes(raw[10..12].try_into().unwrap()),
+    })
+}
+fn frame_json(f: &Frame) -> Value {
+    match f.hdr {
+        Some(h) => json!({
+            "name": f.name, "kind": "hdr", "stream_offset": h.so.to_string(), "frame_offset": h.off,
+            "flags": h.flags, "last": h.last(), "payload_len": f.len, "pid": f.pid,
+            "honest": f.honest.map(|(k, i)| json!([k, i])),
+        }),
+        None => json!({"name": f.name, "kind": "raw", "raw_hex": vpc::hex(&f.raw)}),
+    }
+}
+fn frame_from_json(v: &Value) -> Frame {
+    let name = v["name"].as_str().unwrap_or("?");
+    if v["kind"] == "raw" {
+        return mk_raw(name, vpc::unhex(v["raw_hex"].as_str().unwrap_or("")));
+    }
+    let so: u64 = v["stream_offset"].as_str().and_then(|s| s.parse().ok()).unwrap_or_else(|| vpc::machinery_failure("replay: bad stream_offset"));
+    let mut f = mk_frame(
+        name,
+        so,
+        v["frame_offset"].as_u64().unwrap_or(0) as u16,
+        v["flags"].as_u64().unwrap_or(0) as u16,
+        v["payload_len"].as_u64().unwrap_or(0) as usize,
+        v["pid"].as_u64().unwrap_or(0) as u8,
+    );
+    if let Some(a) = v["honest"].as_array() {
+        f.honest = Some((a[0].as_u64().unwrap() as usize, a[1].as_u64().unwrap() as usize));
+    }
+    f
+}
+
+#[derive(Clone)]
+struct Pkt {
+    pid: u8,
+    so: u64,
+    data: Vec<u8>,
+    nframes: usize,
+}
+
+#[derive(Clone, Copy, Debug)]
+struct Cfg {
+    mtu: usize,
+    variant: char,
+    q: usize,
+}
+
+struct Ctx {
+    cfg: Cfg,
+    w: usize,
+    frames: Vec<Frame>,
+    pkts: Vec<Pkt>,
+    /// stream offset -> provenance id of every stream offset occurring in the alphabet
+    so_pid: Vec<(u64, u8)>,
+    build_problems: Vec<String>,
+}
+impl Ctx {
+    fn pid_of(&self, so: u64) -> Option<u8> {
+        self.so_pid.iter().find(|(s, _)| *s == so).map(|(_, p)| *p)
+    }
+}
+
+const PID_OLD: u8 = 4;
+const PID_MAX: u8 = 5;
+const PID_PREAMBLE: u8 = 6;
+
+fn sizes(variant: char, w: usize) -> [usize; 4] {
+    match variant {
+        // 1, 2, 3, 2 frames; sizes at the frame boundary and +-1
+        'A' => [w, w + 1, 2 * w + 1, 2 * w],
+        'B' => [w - 1, 2 * w - 1, 3 * w, w + 1],
+        _ => [1, 2 * w, 3 * w - 1, 2 * w - 1],
+    }
+}
+
+/// Honest frames from the real Fragmenter + hostile frames by field mutation.
+fn build_ctx(cfg: Cfg, with_flag_variants: bool) -> Ctx {
+    let w = cfg.mtu - HDR;
+    let mut problems = vec![];
+    let mut fr = Fragmenter::new_unobserved(cfg.mtu);
+    if fr.mtu() != cfg.mtu {
+        problems.push(format!("Fragmenter mtu {} != requested {}", fr.mtu(), cfg.mtu));
+    }
+    // preamble packet so that honest stream offsets are > 0 (an "older" offset exists)
+    let pre: Vec<u8> = (0..7).map(|p| tag(PID_PREAMBLE, p)).collect();
+    let _ = fr.send(&pre, |_| {});
+    let mut frames: Vec<Frame> = vec![];
+    let mut pkts = vec![];
+    let mut expect_so = 7u64;
+    for (k, size) in sizes(cfg.variant, w).into_iter().enumerate() {
+        let data: Vec<u8> = (0..size).map(|p| tag(k as u8, p)).collect();
+        let mut got: Vec<Vec<u8>> = vec![];
+        let so = match fr.send(&data, |f| got.push(f.to_vec())) {
+            Ok(so) => so,
+            Err(e) => {
+                problems.push(format!("Fragmenter refused honest packet of {size} bytes: {e}"));
+                continue;
+            }
+        };
+        // independent expectation of what an honest sender emits (module doc of fragmenting.rs)
+        let n = size.div_ceil(w);
+        if so != expect_so || got.len() != n {
+            problems.push(format!("packet {k}: stream offset {so} (expected {expect_so}), {} frames (expected {n})", got.len()));
+        }
+        for (i, raw) in got.iter().enumerate() {
+            let h = parse_hdr(raw);
+            let want = Hdr { so, off: (i * w) as u16, flags: if i + 1 == n { LAST } else { 0 } };
+            let lo = (i * w).min(size);
+            let hi = ((i + 1) * w).min(size);
+            if h != Some(want) || raw.len() < HDR || raw[HDR..] != data[lo..hi] || raw[12..16] != [0, 0, 0, 0] {
+                problems.push(format!("packet {k} frame {i}: header {h:?} / payload differ from the honest expectation {want:?}"));
+            }
+            let hh = h.unwrap_or(want);
+            frames.push(Frame {
+                name: format!("P{k}.{}{}", if hh.last() { "L@" } else { "M@" }, off_name(hh.off as usize, w)),
+                honest: Some((k, i)),
+                raw: raw.clone(),
+                hdr: h,
+                len: raw.len().saturating_sub(HDR),
+                pid: k as u8,
+            });
+        }
+        pkts.push(Pkt { pid: k as u8, so, data, nframes: got.len() });
+        expect_so += size as u64;
+    }
+    let s1 = pkts[1].so;
+    let s2 = pkts[2].so;
+    let w16 = w as u16;
+    let l2 = pkts[2].data.len() - 2 * w; // honest length of P2's LAST fragment
+    let mut hostile = vec![
+        mk_raw("X.short0", vec![]),
+        mk_raw("X.short15", vec![0x11; 15]),
+        mk_frame("X2.L@0/len0", s2, 0, LAST, 0, 2),
+        mk_frame("X2.L@0/len1", s2, 0, LAST, 1, 2),
+        mk_frame("X2.L@w/len1", s2, w16, LAST, 1, 2),
+        mk_frame("X2.L@2w/len+1", s2, 2 * w16, LAST, l2 + 1, 2),
+        mk_frame("X2.L@w+1/len1", s2, w16 + 1, LAST, 1, 2),
+        mk_frame("X2.M@2w", s2, 2 * w16, 0, w, 2),
+        mk_frame("X2.M@3w", s2, 3 * w16, 0, w, 2),
+        mk_frame("X2.M@4w", s2, 4 * w16, 0, w, 2),
+        mk_frame("X2.M@0/len0", s2, 0, 0, 0, 2),
+        mk_frame("X2.L@w/len0", s2, w16, LAST, 0, 2),
+        mk_frame("X2.M@0/len(w+1)", s2, 0, 0, w + 1, 2),
+        mk_frame("X2.L@65534/len1", s2, 65534, LAST, 1, 2),
+        mk_frame("X2.L@65535/len1", s2, 65535, LAST, 1, 2),
+        {
+            let k = MAX_PACKET_SIZE / w; // k*w <= 65535 < k*w + w
+            mk_frame("X2.M@kw/end>65535", s2, (k * w) as u16, 0, w, 2)
+        },
+        mk_frame("X1.M@w", s1, w16, 0, w, 1),
+        mk_frame("Xold.M@0", 3, 0, 0, w, PID_OLD),
+        mk_frame("Xmax.M@0", u64::MAX, 0, 0, w, PID_MAX),
+        mk_frame("Xmax.L@w/len1", u64::MAX, w16, LAST, 1, PID_MAX),
+        mk_frame("X2.L@0/len65536", s2, 0, LAST, 65536, 2),
+    ];
+    if with_flag_variants {
+        hostile.push(mk_frame("X2.M@0/flags7fff", s2, 0, 0x7fff, w, 2));
+        hostile.push(mk_frame("X2.L@2w/flagsffff", s2, 2 * w16, 0xffff, l2, 2));
+    }
+    frames.extend(hostile);
+    let mut so_pid: Vec<(u64, u8)> = pkts.iter().map(|p| (p.so, p.pid)).collect();
+    so_pid.push((3, PID_OLD));
+    so_pid.push((u64::MAX, PID_MAX));
+    if frames.len() > 64 {
+        vpc::machinery_failure("alphabet larger than 64");
+    }
+    Ctx { cfg, w, frames, pkts, so_pid, build_problems: problems }
+}
+fn off_name(off: usize, w: usize) -> String {
+    if off == 0 {
+        "0".into()
+    } else if off % w == 0 {
+        format!("{}w", off / w)
+    } else {
+        format!("{off}")
+    }
+}
+
+// ---------------------------------------------------------------------------------------------
+// running the real object
+// ---------------------------------------------------------------------------------------------
+#[derive(Clone, Debug, PartialEq, Eq)]
+enum Out {
+    Emit { so: u64, payload: Vec<u8> },
+    None,
+    Err(&'static str),
+    Panic(String),
+}
+impl Out {
+    fn short(&self) -> String {
+        match self {
+            Out::Emit { so, payload } => format!("Ok(Some(stream_offset={so}, len={}))", payload.len()),
+            Out::None => "Ok(None)".into(),
+            Out::Err(l) => format!("Err({l})"),
+            Out::Panic(m) => format!("PANIC({m})"),
+        }
+    }
+}
+fn err_label(e: &DefragmentInsertError) -> &'static str {
+    match e {
+        DefragmentInsertError::QueueNotAccepting => "queue_idle",
+        DefragmentInsertError::InvalidHeader => "invalid_header",
+        DefragmentInsertError::InvalidHeaderValue(_, m) => m,
+        DefragmentInsertError::OutOfBounds(_) => "segment_out_of_bounds",
+        DefragmentInsertError::Duplicate(_) => "duplicate_segment",
+        DefragmentInsertError::TooOld(_) => "segment_too_old",
+    }
+}
+fn recv_one(d: &mut Defragmenter, raw: &[u8]) -> Out {
+    match d.recv(raw) {
+        Ok(Some(p)) => Out::Emit { so: p.stream_offset, payload: p.payload.to_vec() },
+        Ok(None) => Out::None,
+        Err(e) => Out::Err(err_label(&e)),
+    }
+}
+fn new_defrag(q: usize) -> Defragmenter {
+    METRICS.with(|m| Defragmenter::new(q, m.clone()))
+}
+/// Replays `hist` on a fresh Defragmenter, returns the result of the last delivery.
+fn exec_last(q: usize, frames: &[Frame], hist: &[u8]) -> Out {
+    let r = vpc::catch(|| {
+        let mut d = new_defrag(q);
+        let (last, pre) = hist.split_last().expect("non-empty history");
+        for &i in pre {
+            let _ = d.recv(&frames[i as usize].raw);
+        }
+        recv_one(&mut d, &frames[*last as usize].raw)
+    });
+    match r {
+        Ok(o) => o,
+        Err(m) => Out::Panic(format!("{m} @ {}", vpc::last_panic_location())),
+    }
+}
+/// Replays `hist` on a fresh Defragmenter, returns every result.
+fn exec_all(q: usize, frames: &[&Frame]) -> Vec<Out> {
+    let mut outs = vec![];
+    let mut d = match vpc::catch(|| new_defrag(q)) {
+        Ok(d) => d,
+        Err(m) => return vec![Out::Panic(m)],
+    };
+    for f in frames {
+        let r = vpc::catch(|| recv_one(&mut d, &f.raw));
+        match r {
+            Ok(o) => outs.push(o),
+            Err(m) => {
+                outs.push(Out::Panic(format!("{m} @ {}", vpc::last_panic_location())));
+                break;
+            }
+        }
+    }
+    outs
+}
+
+/// "never grows memory": live heap bytes after replaying the history once == after replaying it
+/// twice == right after construction; everything is released on drop. A dry run first creates the
+/// lazily allocated per-label metric children (shared, bounded by the number of error labels).
+fn memory_check(q: usize, frames: &[Frame], hist: &[u8]) -> Result<(), (String, Value)> {
+    let run = |measure: bool| -> Option<[i64; 5]> {
+        let base = live();
+        let mut d = new_defrag(q);
+        let l0 = live();
+        for &i in hist {
+            let _ = d.recv(&frames[i as usize].raw);
+        }
+        let l1 = live();
+        for &i in hist {
+            let _ = d.recv(&frames[i as usize].raw);
+        }
+        let l2 = live();
+        drop(d);
+        let l3 = live();
+        measure.then_some([base, l0, l1, l2, l3])
+    };
+    let r = vpc::catch(|| {
+        run(false);
+        run(true).unwrap()
+    });
+    let Ok([base, l0, l1, l2, l3]) = r else { return Ok(()) }; // panics are reported by the transition oracle
+    if l2 != l1 {
+        return Err(("memory-growth:second-replay".into(), json!({"live_after_construction": l0 - base, "after_once": l1 - base, "after_twice": l2 - base})));
+    }
+    if l1 != l0 {
+        return Err(("memory-growth:after-construction".into(), json!({"live_after_construction": l0 - base, "after_once": l1 - base})));
+    }
+    if l3 != base {
+        return Err(("memory-leak:after-drop".into(), json!({"live_after_drop_minus_before_new": l3 - base})));
+    }
+    Ok(())
+}
+
+// ---------------------------------------------------------------------------------------------
+// oracles (independent of the mirror)
+// ---------------------------------------------------------------------------------------------
+struct Viol {
+    class: String,
+    what: String,
+    detail: Value,
+    /// extra observed-outcome class to count (None for most)
+    note: Option<&'static str>,
+}
+
+/// Byte-provenance oracle: every byte of an emitted packet with stream offset S is `tag(pid(S), p)`,
+/// i.e. was received at that position in a frame of that same packet.
+fn provenance_oracle(ctx: &Ctx, hist: &[&Frame], so: u64, payload: &[u8]) -> Option<Viol> {
+    let Some(pid) = ctx.pid_of(so) else {
+        return Some(Viol {
+                note: None,
+            class: "emitted-unknown-stream-offset".into(),
+            what: format!("emitted a packet with stream offset {so} that no delivered frame carries"),
+            detail: json!({"stream_offset": so.to_string(), "len": payload.len()}),
+        });
+    };
+    if payload.len() <= 65537 && (pid as usize) < 8 && payload == &tag_table(pid)[..payload.len()] {
+        return None;
+    }
+    let bad: Vec<usize> = (0..payload.len()).filter(|&p| payload[p] != tag(pid, p)).collect();
+    if bad.is_empty() {
+        return None;
+    }
+    // contiguous bad ranges with their apparent source
+    let mut ranges: Vec<(usize, usize, String)> = vec![];
+    for &p in &bad {
+        let src = if payload[p] == 0 {
+            "zero (never written)".to_string()
+        } else {
+            match (0..8u8).find(|&o| o != pid && tag(o, p) == payload[p]) {
+                Some(o) => format!("bytes of packet pid {o}"),
+                None => "unknown".to_string(),
+            }
+        };
+        match ranges.last_mut() {
+            Some((_, e, s)) if *e == p && *s == src => *e = p + 1,
+            _ => ranges.push((p, p + 1, src)),
+        }
+    }
+    // which structural anomaly do the delivered frames of this packet show?
+    let mine: Vec<&&Frame> = hist.iter().filter(|f| f.hdr.is_some_and(|h| h.so == so)).collect();
+    let lasts: Vec<(u16, usize)> = {
+        let mut v: Vec<(u16, usize)> = mine.iter().filter(|f| f.hdr.unwrap().last()).map(|f| (f.hdr.unwrap().off, f.len)).collect();
+        v.sort();
+        v.dedup();
+        v
+    };
+    let mut anomalies = vec![];
+    if lasts.len() > 1 {
+        anomalies.push("conflicting-last");
+    }
+    if mine.iter().any(|f| !f.hdr.unwrap().last() && lasts.iter().any(|(lo, _)| f.hdr.unwrap().off >= *lo)) {
+        anomalies.push("mid-at-or-beyond-last");
+    }
+    if anomalies.is_empty() {
+        anomalies.push(if mine.iter().all(|f| f.honest.is_some()) { "honest-frames-only" } else { "no-frame-anomaly" });
+    }
+    let stale_other = ranges.iter().any(|r| r.2.starts_with("bytes of packet"));
+    Some(Viol {
+        note: Some(if stale_other { "emit:contains-bytes-of-an-earlier-packet" } else { "emit:contains-never-written(zero)-bytes" }),
+        class: format!("stale-bytes:{}", anomalies.join("+")),
+        what: format!(
+            "emitted packet (stream offset {so}, pid {pid}, {} bytes) contains {} bytes that were not received in any frame of that packet at that position{}",
+            payload.len(),
+            bad.len(),
+            if stale_other { " — they are bytes of an EARLIER packet left in the slot" } else { " (buffer never written there)" }
+        ),
+        detail: json!({
+            "emitted_stream_offset": so.to_string(), "emitted_len": payload.len(), "bad_bytes": bad.len(),
+            "bad_ranges": ranges.iter().take(8).map(|(s, e, src)| json!({"from": s, "to_excl": e, "content": src})).collect::<Vec<_>>(),
+        }),
+    })
+}
+
+/// State of the honest-sender monitor (spec level, fed by the history and the observed results).
+#[derive(Clone, Copy, PartialEq, Eq, Default, Debug)]
+struct Mon {
+    /// number of hostile frames delivered so far (saturating)
+    hostile: u8,
+    /// per honest packet: distinct frames delivered so far / since its last emission
+    recv: [u8; 4],
+    since: [u8; 4],
+    emitted: [u8; 4],
+    /// multi-frame packets that got a frame after their first completion (may hold a slot again)
+    touched: u8,
+    /// more than Q packets were possibly holding a slot at some time: eviction may have been due
+    pressure: bool,
+}
+impl Mon {
+    fn step(&mut self, ctx: &Ctx, f: &Frame, out: &Out, notes: &mut Vec<&'static str>) -> Vec<Viol> {
+        let mut v = vec![];
+        let Some((k, i)) = f.honest else {
+            self.hostile = self.hostile.saturating_add(1);
+            return v;
+        };
+        if self.hostile > 0 {
+            return v;
+        }
+        let q = ctx.cfg.q;
+        let pk = &ctx.pkts[k];
+        let full = |j: usize| (1u8 << ctx.pkts[j].nframes) - 1;
+        let was_complete = self.recv[k] == full(k);
+        self.recv[k] |= 1 << i;
+        self.since[k] |= 1 << i;
+        if was_complete && pk.nframes > 1 {
+            self.touched |= 1 << k;
+        }
+        let first_completion = !was_complete && self.recv[k] == full(k);
+        let occ = (0..ctx.pkts.len())
+            .filter(|&j| ctx.pkts[j].nframes > 1 && self.recv[j] != 0 && (self.recv[j] != full(j) || self.touched & (1 << j) != 0 || (j == k && first_completion)))
+            .count();
+        if occ > q {
+            self.pressure = true;
+        }
+        if let Out::Emit { so, payload } = out {
+            match ctx.pkts.iter().position(|p| p.so == *so) {
+                None => v.push(Viol {
+                note: None,
+                    class: "honest:emitted-unsent-stream-offset".into(),
+                    what: format!("honest frames only, but a packet with stream offset {so} (never sent) was emitted"),
+                    detail: json!({"stream_offset": so.to_string()}),
+                }),
+                Some(j) => {
+                    let pj = &ctx.pkts[j];
+                    if *payload != pj.data {
+                        v.push(Viol {
+                note: None,
+                            class: "honest:emitted-not-identical-to-sent".into(),
+                            what: format!("honest frames only: emitted packet P{j} ({} bytes) differs from the sent packet ({} bytes)", payload.len(), pj.data.len()),
+                            detail: json!({"packet": j, "emitted_len": payload.len(), "sent_len": pj.data.len(),
+                                "first_difference": payload.iter().zip(&pj.data).position(|(a, b)| a != b)}),
+                        });
+                    }
+                    if self.recv[j] != full(j) {
+                        v.push(Viol {
+                note: None,
+                            class: "honest:emitted-before-all-frames-arrived".into(),
+                            what: format!("packet P{j} emitted although only frames {:#b} of {} have been delivered", self.recv[j], pj.nframes),
+                            detail: json!({"packet": j}),
+                        });
+                    }
+                    if self.emitted[j] >= 1 {
+                        let how = if pj.nframes == 1 {
+                            "single-frame-fast-path"
+                        } else if self.since[j] == full(j) {
+                            "all-frames-redelivered-after-slot-reuse"
+                        } else {
+                            "without-full-redelivery"
+                        };
+                        v.push(Viol {
+                note: None,
+                            class: format!("honest:emitted-twice:{how}"),
+                            what: format!("honest sender, duplicated frames: packet P{j} ({} frame(s)) is emitted a second time", pj.nframes),
+                            detail: json!({"packet": j, "frames_of_packet": pj.nframes, "frames_redelivered_since_first_emission_mask": self.since[j]}),
+                        });
+                    }
+                    self.emitted[j] = (self.emitted[j] + 1).min(2);
+                    self.since[j] = 0;
+                }
+            }
+        }
+        if first_completion {
+            notes.push(if self.pressure { "honest:completed-after-possible-eviction(emission-not-required)" } else { "honest:completion-obligation-checked" });
+        }
+        if first_completion && !self.pressure && !matches!(out, Out::Emit { so, .. } if *so == pk.so) {
+            v.push(Viol {
+                note: None,
+                class: "honest:not-emitted-on-completion".into(),
+                what: format!(
+                    "honest frames only, never more than Q={q} packets in progress: the last missing frame of P{k} arrived but the result was {} instead of the packet",
+                    out.short()
+                ),
+                detail: json!({"packet": k}),
+            });
+        }
+        v
+    }
+    fn canon(&self, budget_mode: bool, out: &mut Vec<u8>) {
+        if self.hostile > 0 {
+            out.push(0xff);
+            out.push(if budget_mode { self.hostile } else { 1 });
+        } else {
+            out.push(0);
+            out.extend_from_slice(&self.recv);
+            out.extend_from_slice(&self.since);
+            out.extend_from_slice(&self.emitted);
+            out.push(self.touched);
+            out.push(self.pressure as u8);
+        }
+    }
+}
+
+/// All oracles for one delivery (the last frame of `hist`).
+fn judge(ctx: &Ctx, mon: &mut Mon, hist: &[&Frame], out: &Out, notes: &mut Vec<&'static str>) -> Vec<Viol> {
+    let mut v = vec![];
+    match out {
+        Out::Panic(m) => {
+            let loc = m.rsplit(" @ ").next().unwrap_or("?").to_string();
+            v.push(Viol { note: None, class: format!("panic@{loc}"), what: format!("Defragmenter::recv panicked: {m}"), detail: json!({"panic": m}) });
+        }
+        Out::Emit { so, payload } => {
+            if let Some(x) = provenance_oracle(ctx, hist, *so, payload) {
+                v.push(x);
+            }
+        }
+        _ => {}
+    }
+    v.extend(mon.step(ctx, hist.last().unwrap(), out, notes));
+    for x in &v {
+        if let Some(n) = x.note {
+            notes.push(n);
+        }
+    }
+    v
+}
+
+fn outcome_class(f: &Frame, out: &Out) -> String {
+    match out {
+        Out::Emit { .. } if f.hdr.is_some_and(|h| h.last() && h.off == 0) => "emit:single-frame".into(),
+        Out::Emit { .. } => "emit:reassembled".into(),
+        Out::None => "accepted:incomplete".into(),
+        Out::Err(l) => format!("err:{l}"),
+        Out::Panic(_) => "panic".into(),
+    }
+}
+
+// ---------------------------------------------------------------------------------------------
+// mirror of the documented slot state — used ONLY for de-duplication
+// ---------------------------------------------------------------------------------------------
+#[derive(Clone)]
+struct MSlot {
+    so: u64,
+    mask: [u128; 2],
+    win: Option<usize>,
+    fin: Option<usize>,
+    exp: Option<usize>,
+    last_off: Option<u16>,
+    idle: bool,
+    /// sorted disjoint [start, end) -> pid; gaps are zero bytes
+    buf: Vec<(u32, u32, u8)>,
+}
+#[derive(Clone)]
+struct Mirror {
+    slots: Vec<MSlot>,
+}
+enum Pred {
+    EmitFrame,
+    EmitSlot(usize, usize),
+    None,
+    Err(&'static str),
+}
+fn is_mult(a: usize, b: usize) -> bool {
+    if b == 0 { a == 0 } else { a % b == 0 }
+}
+impl MSlot {
+    fn write(&mut self, s: u32, e: u32, pid: u8) {
+        if s >= e {
+            return;
+        }
+        let mut nb: Vec<(u32, u32, u8)> = Vec::with_capacity(self.buf.len() + 2);
+        for &(a, b, p) in &self.buf {
+            if b <= s || a >= e {
+                nb.push((a, b, p));
+            } else {
+                if a < s {
+                    nb.push((a, s, p));
+                }
+                if b > e {
+                    nb.push((e, b, p));
+                }
+            }
+        }
+        nb.push((s, e, pid));
+        nb.sort();
+        let mut m: Vec<(u32, u32, u8)> = Vec::with_capacity(nb.len());
+        for x in nb {
+            match m.last_mut() {
+                Some(l) if l.1 == x.0 && l.2 == x.2 => l.1 = x.1,
+                _ => m.push(x),
+            }
+        }
+        self.buf = m;
+    }
+}
+impl Mirror {
+    fn new(q: usize) -> Mirror {
+        Mirror {
+            slots: (0..q).map(|_| MSlot { so: u64::MAX, mask: [0; 2], win: None, fin: None, exp: None, last_off: None, idle: true, buf: vec![] }).collect(),
+        }
+    }
+    fn recv(&mut self, f: &Frame) -> Pred {
+        let Some(h) = f.hdr else { return Pred::Err("invalid_header") };
+        if h.last() && h.off == 0 {
+            return Pred::EmitFrame;
+        }
+        let mut lowest = u64::MAX;
+        let mut li = 0;
+        let mut idle = None;
+        let mut found = None;
+        for (i, s) in self.slots.iter().enumerate() {
+            if s.so == h.so {
+                found = Some(i);
+                break;
+            }
+            if s.idle {
+                idle = Some(i);
+            }
+            if lowest > s.so {
+                lowest = s.so;
+                li = i;
+            }
+        }
+        let si = match found {
+            Some(i) => i,
+            None => {
+                if idle.is_none() && h.so < lowest {
+                    return Pred::Err("segment_too_old");
+                }
+                let i = idle.unwrap_or(li);
+                let s = &mut self.slots[i];
+                s.mask = [0; 2];
+                s.win = None;
+                s.fin = None;
+                s.exp = None;
+                s.idle = false;
+                s.so = h.so;
+                i
+            }
+        };
+        let s = &mut self.slots[si];
+        if s.idle {
+            return Pred::Err("queue_idle");
+        }
+        let off = h.off as usize;
+        if off + f.len > MAX_PACKET_SIZE {
+            s.idle = true;
+            return Pred::Err("segment_out_of_bounds");
+        }
+        let idx = if h.last() {
+            s.fin = Some(off + f.len);
+            s.last_off = Some(h.off);
+            255
+        } else {
+            if s.win.is_some() && s.win != Some(f.len) {
+                s.idle = true;
+                return Pred::Err("inconsistent_frame_size");
+            }
+            s.win = Some(f.len);
+            if !is_mult(off, f.len) {
+                s.idle = true;
+                return Pred::Err("offset_alignment_invalid");
+            }
+            if f.len < MIN_MTU - HDR {
+                s.idle = true;
+                return Pred::Err("frame_too_small");
+            }
+            let idx = off / f.len;
+            if idx >= 255 {
+                s.idle = true;
+                return Pred::Err("frame_idx_exceeds_max_frames");
+            }
+            idx
+        };
+        if let (Some(fin), Some(win), Some(lo), None) = (s.fin, s.win, s.last_off, s.exp) {
+            if !is_mult(lo as usize, win) {
+                s.idle = true;
+                return Pred::Err("last_frame_offset_alignment_invalid");
+            }
+            s.exp = Some(fin.div_ceil(win));
+        }
+        let bit = 1u128 << (idx % 128);
+        if s.mask[idx / 128] & bit != 0 {
+            return Pred::Err("duplicate_segment");
+        }
+        s.write(off as u32, (off + f.len) as u32, f.pid);
+        s.mask[idx / 128] |= bit;
+        if let Some(e) = s.exp
+            && (s.mask[0].count_ones() + s.mask[1].count_ones()) as usize == e
+        {
+            s.idle = true;
+            return Pred::EmitSlot(si, s.fin.unwrap_or(MAX_PACKET_SIZE));
+        }
+        Pred::None
+    }
+    /// Does the real result equal the mirror's prediction (incl. every emitted byte)?
+    fn faithful(&self, pred: &Pred, f: &Frame, out: &Out) -> bool {
+        match (pred, out) {
+            (Pred::None, Out::None) => true,
+            (Pred::Err(a), Out::Err(b)) => a == b,
+            (Pred::EmitFrame, Out::Emit { so, payload }) => Some(*so) == f.hdr.map(|h| h.so) && payload[..] == f.raw[HDR..],
+            (Pred::EmitSlot(i, n), Out::Emit { so, payload }) => {
+                let s = &self.slots[*i];
+                if *so != s.so || payload.len() != *n {
+                    return false;
+                }
+                let mut exp = vec![0u8; *n];
+                for &(a, b, pid) in &s.buf {
+                    let (a, b) = (a as usize, (b as usize).min(*n));
+                    if a < b {
+                        exp[a..b].copy_from_slice(&tag_table(pid)[a..b]);
+                    }
+                }
+                exp == *payload
+            }
+            _ => false,
+        }
+    }
+    fn canon(&self, out: &mut Vec<u8>) {
+        for s in &self.slots {
+            out.extend_from_slice(&s.so.to_be_bytes());
+            out.push(s.idle as u8);
+            if !s.idle {
+                out.extend_from_slice(&s.mask[0].to_be_bytes());
+                out.extend_from_slice(&s.mask[1].to_be_bytes());
+                let o = |x: Option<usize>| (x.map(|v| v as u32 + 1).unwrap_or(0)).to_be_bytes();
+                out.extend_from_slice(&o(s.win));
+                out.extend_from_slice(&o(s.fin));
+                out.extend_from_slice(&o(s.exp));
+                // last_frame_offset survives init() but is only read together with final size
+                out.extend_from_slice(&o(if s.fin.is_some() { s.last_off.map(|v| v as usize) } else { None }));
+            }
+            out.push(s.buf.len() as u8);
+            for &(a, b, p) in &s.buf {
+                out.extend_from_slice(&a.to_be_bytes());
+                out.extend_from_slice(&b.to_be_bytes());
+                out.push(p);
+            }
+        }
+    }
+}
+
+fn hash128(bytes: &[u8]) -> u128 {
+    let h1 = vpc::fnv64(bytes);
+    // second, independent 64-bit hash (different basis, multiply-xorshift per byte, final avalanche)
+    let mut h2: u64 = 0x9e3779b97f4a7c15 ^ (bytes.len() as u64);
+    for &b in bytes {
+        h2 = (h2 ^ b as u64).wrapping_mul(0xff51afd7ed558ccd);
+        h2 ^= h2 >> 29;
+    }
+    h2 = (h2 ^ (h2 >> 33)).wrapping_mul(0xc4ceb9fe1a85ec53);
+    h2 ^= h2 >> 32;
+    ((h1 as u128) << 64) | h2 as u128
+}
+
+// ---------------------------------------------------------------------------------------------
+// breadth-first exploration
+// ---------------------------------------------------------------------------------------------
+const MAXD: usize = 10;
+#[derive(Clone, Copy)]
+struct Node {
+    hist: [u8; MAXD],
+    len: u8,
+    mon: Mon,
+    diverged: bool,
+}
+impl Node {
+    fn h(&self) -> &[u8] {
+        &self.hist[..self.len as usize]
+    }
+}
+struct Succ {
+    key: u128,
+    node: Node,
+}
+#[derive(Default)]
+struct Expanded {
+    succ: Vec<Succ>,
+    merged_known: u64,
+    outcomes: BTreeMap<String, u64>,
+    /// class -> (count, first: what, history, detail)
+    viols: BTreeMap<String, (u64, String, Vec<u8>, Value)>,
+    executed: u64,
+    divergences: u64,
+    /// first history in which an emitted packet contained bytes of ANOTHER (earlier) packet
+    first_earlier: Option<Vec<u8>>,
+}
+
+#[derive(Clone, Copy)]
+struct Mode {
+    depth: usize,
+    /// None: all sequences over the full alphabet; Some(n): at most n hostile deliveries per history
+    max_hostile: Option<u8>,
+    audit_depth: usize,
+    name: &'static str,
+}
+
+#[derive(Default)]
+struct Totals {
+    states: u64,
+    transitions: u64,
+    executed: u64,
+    mem_checks: u64,
+    audits: u64,
+    audit_failures: u64,
+    divergences: u64,
+    capped: bool,
+    seen_classes: HashSet<String>,
+    earlier_packet_witness: Option<Value>,
+    per_run: Vec<Value>,
+}
+
+const CHUNK: usize = 1 << 14;
+/// Safety valve: states that can no longer be merged (mirror diverged — only under a changed
+/// subject) grow like A^d; beyond this many per level they are not expanded further.
+const UNMERGED_CAP: usize = 150_000;
+
+fn key_of(mirror: &Mirror, mon: &Mon, budget: bool) -> u128 {
+    let mut b = Vec::with_capacity(160);
+    mirror.canon(&mut b);
+    mon.canon(budget, &mut b);
+    hash128(&b)
+}
+fn hist_key(h: &[u8]) -> u128 {
+    let mut b = Vec::with_capacity(h.len() + 1);
+    b.push(0xEE);
+    b.extend_from_slice(h);
+    // disjoint from mirror keys with overwhelming probability; mark by flipping the top bit pattern
+    hash128(&b) ^ (0xD1u128 << 120)
+}
+
+fn expand(ctx: &Ctx, mode: &Mode, node: &Node, visited: &HashSet<u128>, prefilter: bool) -> Expanded {
+    let mut ex = Expanded::default();
+    let frames = &ctx.frames;
+    let q = ctx.cfg.q;
+    let budget = mode.max_hostile.is_some();
+    let mut mirror = Mirror::new(q);
+    for &i in node.h() {
+        let _ = mirror.recv(&frames[i as usize]);
+    }
+    let mut hist = node.hist;
+    let n = node.len as usize;
+    for (fi, f) in frames.iter().enumerate() {
+        if let Some(maxh) = mode.max_hostile
+            && f.honest.is_none()
+            && node.mon.hostile >= maxh
+        {
+            continue;
+        }
+        hist[n] = fi as u8;
+        let h = &hist[..n + 1];
+        let out = exec_last(q, frames, h);
+        ex.executed += 1;
+        *ex.outcomes.entry(outcome_class(f, &out)).or_default() += 1;
+        let mut mon = node.mon;
+        let refs: Vec<&Frame> = h.iter().map(|&i| &frames[i as usize]).collect();
+        let mut notes = vec![];
+        let vs = judge(ctx, &mut mon, &refs, &out, &mut notes);
+        for n in notes {
+            if n == "emit:contains-bytes-of-an-earlier-packet" && ex.first_earlier.is_none() {
+                ex.first_earlier = Some(h.to_vec());
+            }
+            *ex.outcomes.entry(n.to_string()).or_default() += 1;
+        }
+        for v in vs {
+            let e = ex.viols.entry(v.class).or_insert((0, v.what, h.to_vec(), v.detail));
+            e.0 += 1;
+        }
+        let mut m2 = mirror.clone();
+        let pred = m2.recv(f);
+        let ok = m2.faithful(&pred, f, &out);
+        if !ok {
+            ex.divergences += 1;
+            *ex.outcomes.entry("mirror-divergence(no-merge)".into()).or_default() += 1;
+        }
+        let diverged = node.diverged || !ok;
+        let key = if diverged { hist_key(h) } else { key_of(&m2, &mon, budget) };
+        if prefilter && visited.contains(&key) {
+            ex.merged_known += 1;
+        } else {
+            ex.succ.push(Succ { key, node: Node { hist, len: (n + 1) as u8, mon, diverged } });
+        }
+    }
+    ex
+}
+
+fn witness(ctx: &Ctx, mode: &Mode, hist: &[u8], detail: &Value) -> Value {
+    let fr: Vec<&Frame> = hist.iter().map(|&i| &ctx.frames[i as usize]).collect();
+    let outs = exec_all(ctx.cfg.q, &fr);
+    json!({
+        "scenario": "bfs", "mode": mode.name,
+        "mtu": ctx.cfg.mtu, "window": ctx.w, "size_variant": ctx.cfg.variant.to_string(), "queues": ctx.cfg.q,
+        "honest_packets": ctx.pkts.iter().map(|p| json!({"pid": p.pid, "stream_offset": p.so.to_string(), "size": p.data.len(), "frames": p.nframes})).collect::<Vec<_>>(),
+        "stream_offset_pids": ctx.so_pid.iter().map(|(s, p)| json!([s.to_string(), p])).collect::<Vec<_>>(),
+        "history": fr.iter().map(|f| f.name.clone()).collect::<Vec<_>>(),
+        "frames": fr.iter().map(|f| frame_json(f)).collect::<Vec<_>>(),
+        "results": outs.iter().map(|o| o.short()).collect::<Vec<_>>(),
+        "detail": detail,
+    })
+}
+
+fn report(run: &vpc::Run, ctx: &Ctx, mode: &Mode, tot: &mut Totals, class: &str, n: u64, what: &str, hist: &[u8], detail: &Value) {
+    // the witness (which re-executes the history) is only built for the first case of a class
+    if tot.seen_classes.insert(class.to_string()) {
+        let names = hist.iter().map(|&i| ctx.frames[i as usize].name.as_str()).collect::<Vec<_>>().join(" , ");
+        run.violation(class, &format!("{what}  [mtu {} Q {} history: {names}]", ctx.cfg.mtu, ctx.cfg.q), witness(ctx, mode, hist, detail));
+    } else {
+        run.violation(class, "", Value::Null);
+    }
+    for _ in 1..n {
+        run.violation(class, "", Value::Null);
+    }
+}
+
+fn explore(run: &vpc::Run, ctx: &Ctx, mode: Mode, tot: &mut Totals) {
+    let t0 = run.elapsed_s();
+    let mut visited: HashSet<u128> = HashSet::new();
+    let mut reps: HashMap<u128, Vec<u8>> = HashMap::new();
+    let root = Node { hist: [0; MAXD], len: 0, mon: Mon::default(), diverged: false };
+    visited.insert(key_of(&Mirror::new(ctx.cfg.q), &root.mon, mode.max_hostile.is_some()));
+    let mut frontier = vec![root];
+    let mut transitions = 0u64;
+    let mut executed = 0u64;
+    let mut per_level = vec![];
+    let mut capped = false;
+    let mut phase = [0f64; 4];
+    let mut outcomes: BTreeMap<String, u64> = BTreeMap::new();
+    for level in 0..mode.depth {
+        let mut next: Vec<Node> = vec![];
+        let mut unmerged_next = 0usize;
+        let mut audit_jobs: Vec<(Vec<u8>, Node)> = vec![];
+        let prefilter = level + 1 > mode.audit_depth;
+        for chunk in frontier.chunks(CHUNK) {
+            let tp = std::time::Instant::now();
+            let exs: Vec<Expanded> = chunk.par_iter().map(|nd| expand(ctx, &mode, nd, &visited, prefilter)).collect();
+            phase[0] += tp.elapsed().as_secs_f64();
+            let tp = std::time::Instant::now();
+            for ex in exs {
+                executed += ex.executed;
+                tot.divergences += ex.divergences;
+                transitions += ex.succ.len() as u64 + ex.merged_known;
+                for (c, n) in &ex.outcomes {
+                    match outcomes.get_mut(c) {
+                        Some(x) => *x += *n,
+                        None => {
+                            outcomes.insert(c.clone(), *n);
+                        }
+                    }
+                }
+                if let (Some(h), None) = (&ex.first_earlier, &tot.earlier_packet_witness) {
+                    tot.earlier_packet_witness = Some(witness(ctx, &mode, h, &json!("emitted packet contains bytes of an earlier packet that used the slot")));
+                }
+                for (class, (n, what, hist, detail)) in &ex.viols {
+                    report(run, ctx, &mode, tot, class, *n, what, hist, detail);
+                }
+                for s in ex.succ {
+                    let new = visited.insert(s.key);
+                    if !new {
+                        if !s.node.diverged && s.node.len as usize <= mode.audit_depth && let Some(rep) = reps.get(&s.key) {
+                            audit_jobs.push((rep.clone(), s.node));
+                        }
+                        continue;
+                    }
+                    if s.node.len as usize <= mode.audit_depth {
+                        reps.insert(s.key, s.node.h().to_vec());
+                    }
+                    if s.node.diverged {
+                        unmerged_next += 1;
+                        if unmerged_next > UNMERGED_CAP {
+                            capped = true;
+                            continue;
+                        }
+                    }
+                    next.push(s.node);
+                }
+            }
+            phase[1] += tp.elapsed().as_secs_f64();
+        }
+        let tp = std::time::Instant::now();
+        // merge audits on the real object: every one-frame extension of the merged history and of
+        // the representative of its key must give the identical result (incl. emitted bytes)
+        let bad: Vec<usize> = audit_jobs
+            .par_iter()
+            .enumerate()
+            .filter(|(_, (rep, nd))| {
+                (0..ctx.frames.len()).any(|fi| {
+                    let mut a = rep.clone();
+                    a.push(fi as u8);
+                    let mut b = nd.h().to_vec();
+                    b.push(fi as u8);
+                    exec_last(ctx.cfg.q, &ctx.frames, &a) != exec_last(ctx.cfg.q, &ctx.frames, &b)
+                })
+            })
+            .map(|(i, _)| i)
+            .collect();
+        tot.audits += audit_jobs.len() as u64;
+        executed += 2 * (ctx.frames.len() * audit_jobs.len()) as u64;
+        for i in bad {
+            tot.audit_failures += 1;
+            run.outcome("merge-audit-failed(no-merge)");
+            let mut nd = audit_jobs[i].1;
+            nd.diverged = true;
+            if visited.insert(hist_key(nd.h())) {
+                next.push(nd);
+            }
+        }
+        phase[2] += tp.elapsed().as_secs_f64();
+        let tp = std::time::Instant::now();
+        // memory oracle on every newly discovered state (its representative history)
+        let mem: Vec<(usize, String, Value)> = next
+            .par_iter()
+            .enumerate()
+            .filter_map(|(i, nd)| memory_check(ctx.cfg.q, &ctx.frames, nd.h()).err().map(|(c, d)| (i, c, d)))
+            .collect();
+        executed += 2 * next.len() as u64;
+        tot.mem_checks += next.len() as u64;
+        for (i, class, detail) in mem {
+            let h = next[i].h().to_vec();
+            report(run, ctx, &mode, tot, &class, 1, "live heap bytes changed while replaying the history on one Defragmenter", &h, &detail);
+        }
+        phase[3] += tp.elapsed().as_secs_f64();
+        per_level.push(json!({"depth": level + 1, "new_states": next.len()}));
+        frontier = next;
+        if frontier.is_empty() {
+            break;
+        }
+    }
+    for (c, n) in &outcomes {
+        run.outcome_n(c, *n);
+    }
+    let states_total = visited.len() as u64;
+    tot.states += states_total;
+    tot.transitions += transitions;
+    tot.executed += executed;
+    tot.capped |= capped;
+    tot.per_run.push(json!({
+        "mode": mode.name, "mtu": ctx.cfg.mtu, "variant": ctx.cfg.variant.to_string(), "queues": ctx.cfg.q, "alphabet": ctx.frames.len(),
+        "depth": mode.depth, "max_hostile": mode.max_hostile, "states": states_total, "transitions": transitions,
+        "histories_executed": executed, "new_states_per_depth": per_level, "capped": capped, "wall_s": ((run.elapsed_s() - t0) * 10.0).round() / 10.0,
+        "wall_s_by_phase": {"expand_parallel": (phase[0] * 10.0).round() / 10.0, "merge_sequential": (phase[1] * 10.0).round() / 10.0, "merge_audits": (phase[2] * 10.0).round() / 10.0, "memory_oracle": (phase[3] * 10.0).round() / 10.0},
+    }));
+}
+
+// ---------------------------------------------------------------------------------------------
+// linear scenario: 65535-byte packets at the minimum MTU (256 frames)
+// ---------------------------------------------------------------------------------------------
+fn linear_frames() -> (Vec<Vec<u8>>, Vec<Vec<Vec<u8>>>) {
+    let mut fr = Fragmenter::new_unobserved(MIN_MTU);
+    let mut pk = vec![];
+    let mut fs = vec![];
+    for k in 0..2u8 {
+        let data: Vec<u8> = (0..MAX_PACKET_SIZE).map(|p| tag(k, p)).collect();
+        let mut got = vec![];
+        let _ = fr.send(&data, |f| got.push(f.to_vec()));
+        pk.push(data);
+        fs.push(got);
+    }
+    (pk, fs)
+}
+fn linear_order(name: &str, n: usize) -> Vec<(usize, usize)> {
+    // (packet, frame index)
+    match name {
+        "in-order" => (0..n).map(|i| (0, i)).collect(),
+        "reverse" => (0..n).rev().map(|i| (0, i)).collect(),
+        "evens-up-odds-down" => (0..n).step_by(2).chain((0..n).filter(|i| i % 2 == 1).rev()).map(|i| (0, i)).collect(),
+        "two-packets-alternating" => (0..n).flat_map(|i| [(0, i), (1, n - 1 - i)]).collect(),
+        "two-packets-sequential-reverse-second" => (0..n).map(|i| (0, i)).chain((0..n).rev().map(|i| (1, i))).collect(),
+        "in-order-then-all-duplicated" => (0..n).chain(0..n).map(|i| (0, i)).collect(),
+        _ => vec![],
+    }
+}
+const LINEAR: &[(&str, usize)] = &[
+    ("in-order", 1),
+    ("reverse", 1),
+    ("evens-up-odds-down", 1),
+    ("two-packets-alternating", 2),
+    ("two-packets-sequential-reverse-second", 1),
+    ("in-order-then-all-duplicated", 1),
+];
+/// Returns (violations, log lines).
+fn linear_run(name: &str, q: usize) -> (Vec<Viol>, Vec<String>, u64) {
+    let (pk, fs) = linear_frames();
+    let mut v = vec![];
+    let mut log = vec![];
+    let n = fs[0].len();
+    if n != 256 || fs[1].len() != 256 {
+        v.push(Viol { note: None, class: "linear:frame-count".into(), what: format!("65535 bytes at MIN_MTU gave {n} frames, expected 256"), detail: json!({}) });
+        return (v, log, 0);
+    }
+    let order = linear_order(name, n);
+    let mut d = new_defrag(q);
+    let mut seen = [vec![false; n], vec![false; n]];
+    let mut emitted = [0u32; 2];
+    for (step, &(k, i)) in order.iter().enumerate() {
+        let r = vpc::catch(|| recv_one(&mut d, &fs[k][i]));
+        let out = match r {
+            Ok(o) => o,
+            Err(m) => {
+                let loc = vpc::last_panic_location();
+                v.push(Viol { note: None, class: format!("panic@{loc}"), what: format!("linear {name}: recv panicked: {m}"), detail: json!({"step": step}) });
+                break;
+            }
+        };
+        let first_time = !seen[k][i];
+        seen[k][i] = true;
+        let completes = first_time && seen[k].iter().all(|b| *b) && emitted[k] == 0;
+        match &out {
+            Out::Emit { so, payload } => {
+                let j = if *so == 0 { 0 } else { 1 };
+                log.push(format!("step {step}: frame P{k}.{i} -> {}", out.short()));
+                emitted[j] += 1;
+                if *so != (j * MAX_PACKET_SIZE) as u64 || *payload != pk[j] {
+                    let bad = payload.iter().zip(&pk[j]).filter(|(a, b)| a != b).count();
+                    v.push(Viol { note: None, class: "linear:emitted-not-identical-to-sent".into(), what: format!("linear {name}: emitted packet differs from the sent one in {bad} bytes (len {})", payload.len()), detail: json!({"step": step}) });
+                }
+                if emitted[j] > 1 {
+                    v.push(Viol { note: None, class: "linear:emitted-twice".into(), what: format!("linear {name}: packet {j} emitted {} times", emitted[j]), detail: json!({"step": step}) });
+                }
+                if !completes || j != k {
+                    v.push(Viol { note: None, class: "linear:emitted-early".into(), what: format!("linear {name}: packet {j} emitted at step {step} before its last missing frame"), detail: json!({"step": step}) });
+                }
+            }
+            _ if completes => {
+                v.push(Viol { note: None, class: "linear:not-emitted-on-completion".into(), what: format!("linear {name}: last missing frame of packet {k} delivered at step {step}, result {}", out.short()), detail: json!({"step": step}) });
+            }
+            _ => {}
+        }
+    }
+    log.push(format!("emitted counts: {emitted:?}"));
+    (v, log, order.len() as u64)
+}
+
+// ---------------------------------------------------------------------------------------------
+// replay
+// ---------------------------------------------------------------------------------------------
+fn replay(path: &std::path::Path) -> ! {
+    let v = vpc::read_replay(path);
+    let w = &v["witness"];
+    println!("replay of class [{}]: {}", v["class"].as_str().unwrap_or("?"), v["what"].as_str().unwrap_or(""));
+    let mut nviol = 0;
+    if w["scenario"] == "linear" {
+        let name = w["order"].as_str().unwrap_or("");
+        let q = w["queues"].as_u64().unwrap_or(1) as usize;
+        let (viols, log, _) = linear_run(name, q);
+        for l in log {
+            println!("  {l}");
+        }
+        for x in &viols {
+            println!("  VIOLATION [{}] {}", x.class, x.what);
+        }
+        nviol = viols.len();
+    } else {
+        let q = w["queues"].as_u64().unwrap_or(1) as usize;
+        let mtu = w["mtu"].as_u64().unwrap_or(MIN_MTU as u64) as usize;
+        let frames: Vec<Frame> = w["frames"].as_array().map(|a| a.iter().map(frame_from_json).collect()).unwrap_or_default();
+        let pkts: Vec<Pkt> = w["honest_packets"]
+            .as_array()
+            .map(|a| {
+                a.iter()
+                    .map(|p| {
+                        let pid = p["pid"].as_u64().unwrap() as u8;
+                        let size = p["size"].as_u64().unwrap() as usize;
+                        Pkt { pid, so: p["stream_offset"].as_str().unwrap().parse().unwrap(), data: (0..size).map(|i| tag(pid, i)).collect(), nframes: p["frames"].as_u64().unwrap() as usize }
+                    })
+                    .collect()
+            })
+            .unwrap_or_default();
+        let so_pid: Vec<(u64, u8)> = w["stream_offset_pids"].as_array().map(|a| a.iter().map(|e| (e[0].as_str().unwrap().parse().unwrap(), e[1].as_u64().unwrap() as u8)).collect()).unwrap_or_default();
+        let ctx = Ctx { cfg: Cfg { mtu, variant: '?', q }, w: mtu - HDR, frames: frames.clone(), pkts, so_pid, build_problems: vec![] };
+        let refs: Vec<&Frame> = frames.iter().collect();
+        let outs = exec_all(q, &refs);
+        let mut mon = Mon::default();
+        println!("fresh Defragmenter with {q} queue(s), window {} bytes", ctx.w);
+        for (i, out) in outs.iter().enumerate() {
+            let f = &frames[i];
+            let desc = match f.hdr {
+                Some(h) => format!("stream_offset={} frame_offset={} last={} payload_len={} (pid {})", h.so, h.off, h.last(), f.len, f.pid),
+                None => format!("{} raw bytes", f.raw.len()),
+            };
+            println!("  step {}: deliver {:<22} {desc}\n           -> {}", i + 1, f.name, out.short());
+            for x in judge(&ctx, &mut mon, &refs[..=i], out, &mut vec![]) {
+                println!("           VIOLATION [{}] {}\n           {}", x.class, x.what, x.detail);
+                nviol += 1;
+            }
+        }
+        let idx: Vec<u8> = (0..frames.len() as u8).collect();
+        if let Err((class, detail)) = memory_check(q, &frames, &idx) {
+            println!("  VIOLATION [{class}] {detail}");
+            nviol += 1;
+        }
+    }
+    println!("replay verdict: {}", if nviol > 0 { format!("{nviol} violation(s) reproduced") } else { "no violation".into() });
+    std::process::exit(if nviol > 0 { 1 } else { 0 })
+}
+
+// ---------------------------------------------------------------------------------------------
 pub fn run(args: &vpc::Args) -> ! {
-    vpc::machinery_failure(&format!("property {} not implemented yet", args.prop))
+    vpc::quiet_panics();
+    // Every history runs on a fresh Defragmenter (Q x 64 KiB buffers): keep freed memory inside the
+    // allocator instead of returning it to the kernel and faulting it in again for the next history.
+    unsafe {
+        libc::mallopt(libc::M_TRIM_THRESHOLD, 1 << 30);
+        libc::mallopt(libc::M_MMAP_THRESHOLD, 32 << 20);
+        libc::mallopt(libc::M_TOP_PAD, 8 << 20);
+    }
+    if let Some(p) = &args.replay {
+        replay(p);
+    }
+    let run = vpc::Run::new(args);
+    let thorough = run.tier == vpc::Tier::Thorough;
+    let mut tot = Totals::default();
+
+    // ---- linear scenario --------------------------------------------------------------------
+    let mut linear_frames_delivered = 0u64;
+    for (name, q) in LINEAR {
+        let (viols, _log, n) = linear_run(name, *q);
+        linear_frames_delivered += n;
+        run.outcome(if viols.is_empty() { "linear:emitted-exactly-once-at-completion" } else { "linear:violation" });
+        for x in viols {
+            run.violation(&x.class, &x.what, json!({"scenario": "linear", "order": name, "queues": q, "detail": x.detail}));
+        }
+    }
+
+    // ---- explorations -----------------------------------------------------------------------
+    let mtus = [MIN_MTU, MIN_MTU + 1, 1500, MAX_MTU];
+    let mut cfgs: Vec<Cfg> = vec![];
+    for (mi, &mtu) in mtus.iter().enumerate() {
+        let variants: Vec<char> = if thorough { vec!['A', 'B', 'C'] } else { vec![['A', 'B', 'C', 'A'][mi]] };
+        for variant in variants {
+            for q in [1, 2] {
+                cfgs.push(Cfg { mtu, variant, q });
+            }
+        }
+    }
+    // bounds (tuning overrides for experiments: C17_FULL_Q1, C17_FULL_Q2, C17_BUDGET_DEPTH, C17_BUDGET_HOSTILE)
+    let envn = |k: &str, d: usize| std::env::var(k).ok().and_then(|v| v.parse().ok()).unwrap_or(d);
+    let full_depth = [envn("C17_FULL_Q1", run.tier.pick(6, 8)), envn("C17_FULL_Q2", run.tier.pick(6, 7))];
+    let budget = Mode {
+        depth: envn("C17_BUDGET_DEPTH", run.tier.pick(7, 8)),
+        max_hostile: Some(envn("C17_BUDGET_HOSTILE", run.tier.pick(1, 2)) as u8),
+        audit_depth: 2,
+        name: "hostile-budget",
+    };
+    if full_depth.iter().any(|d| *d >= MAXD) || budget.depth >= MAXD {
+        vpc::machinery_failure("depth bound too large");
+    }
+    let mut alphabet = 0;
+    for cfg in &cfgs {
+        let ctx = build_ctx(*cfg, thorough);
+        alphabet = ctx.frames.len();
+        for p in &ctx.build_problems {
+            run.violation("fragmenter:unexpected-honest-frames", p, json!({"scenario": "build", "mtu": cfg.mtu, "variant": cfg.variant.to_string()}));
+        }
+        run.sample(2, || json!({"mtu": cfg.mtu, "queues": cfg.q, "alphabet": ctx.frames.iter().map(|f| f.name.clone()).collect::<Vec<_>>(),
+            "honest_packet_sizes": ctx.pkts.iter().map(|p| p.data.len()).collect::<Vec<_>>()}));
+        // quick: the deepest Q=2 run only at the minimum MTU (cost)
+        let d = if !thorough && cfg.q == 2 && cfg.mtu != MIN_MTU { full_depth[1] - 1 } else { full_depth[cfg.q - 1] };
+        let full = Mode { depth: d, max_hostile: None, audit_depth: 3, name: "all-sequences" };
+        explore(&run, &ctx, full, &mut tot);
+        explore(&run, &ctx, budget, &mut tot);
+        eprintln!("[c17] {:?} done at {:.1}s (states so far {}, executed {})", cfg, run.elapsed_s(), tot.states, tot.executed);
+    }
+
+    let exhaustive = !tot.capped;
+    let bound = format!(
+        "{} configurations (MTU {{{},{},1500,{}}} x packet-size variants x Q {{1,2}}), alphabet {} frames (8 honest of 4 packets with 1/2/3/2 frames + hostile); \
+         ALL delivery sequences with repetition up to length {} (Q=1) / {} (Q=2{}) over the full alphabet, and up to length {} with at most {} hostile deliveries; \
+         plus 6 linear 65535-byte/256-frame orders",
+        cfgs.len(), MIN_MTU, MIN_MTU + 1, MAX_MTU, alphabet, full_depth[0], full_depth[1],
+        if thorough { String::new() } else { format!(" at MTU {MIN_MTU}, {} at the other MTUs", full_depth[1] - 1) },
+        budget.depth, budget.max_hostile.unwrap()
+    );
+    let cov = json!({
+        "states": tot.states,
+        "transitions": tot.transitions,
+        "traces_validated_against_impl": tot.executed + LINEAR.len() as u64,
+        "linear_frames_delivered": linear_frames_delivered,
+        "exhaustive": exhaustive,
+        "bound": bound,
+        "state_key": "128-bit hash of (mirror slot state incl. buffer provenance intervals, honest-monitor state); mirror checked against the real result on every transition",
+        "mirror_divergences": tot.divergences,
+        "merge_audits": tot.audits,
+        "merge_audit_failures": tot.audit_failures,
+        "unmerged_state_cap_hit": tot.capped,
+        "first_witness_with_bytes_of_an_earlier_packet": tot.earlier_packet_witness,
+        "runs": tot.per_run,
+    });
+    run.finish(
+        "model_checking",
+        cov,
+        &[
+            "hostile frames are the listed field mutations (not arbitrary byte strings); packet identity = stream offset",
+            "stale bytes are recognised by value: tags are non-zero and differ between packets at every position; bytes of an earlier incarnation of the SAME stream offset are not distinguished",
+            "'no eviction can be due' = at most Q multi-frame packets incomplete or re-touched after completion at any time of an honest-only history",
+            "memory oracle counts heap bytes of the calling thread; lazily created per-error-label metric children are warmed up by a dry run (bounded by the number of labels)",
+            "merged states: equal mirror key => equal futures holds if the mirror is faithful; checked per transition (all emitted bytes) and by shallow merge audits on the real object",
+        ],
+    )
 }
